@@ -111,10 +111,7 @@ impl<'gc> Cloner<'gc> {
     pub fn deep_clone_data(&mut self, data: &GcPtr<DataStruct>) -> (r: Result<GcPtr<DataStruct>, Error>)
         ensures r is Ok ==> fresh(r->Ok_0), final(self).receiver_generation == old(self).receiver_generation
     { unimplemented!() }
-    #[verifier::external_body]
-    pub fn deep_clone_array(&mut self, data: &GcPtr<ValueArray>) -> (r: Result<GcPtr<ValueArray>, Error>)
-        ensures r is Ok ==> fresh(r->Ok_0), final(self).receiver_generation == old(self).receiver_generation
-    { unimplemented!() }
+    // deep_clone_array is extracted and verified (see spec.toml), no longer assumed
     #[verifier::external_body]
     pub fn deep_clone_closure(&mut self, data: &GcPtr<ClosureData>) -> (r: Result<GcPtr<ClosureData>, Error>)
         ensures r is Ok ==> fresh(r->Ok_0), final(self).receiver_generation == old(self).receiver_generation
@@ -147,3 +144,61 @@ pub proof fn lemma_full_clone_copies_everything(out: ValueRepr, input: ValueRepr
     requires recv.0 < 0, value_gen(input).0 >= 0, is_heap(input), ok_for_receiver(out, input, recv)
     ensures fresh_value(out)
 {}
+
+// ---- arrays (value.rs ValueArray / Repr): ghost view of an array object
+pub enum Repr { Byte, Int, Float, String, Array, Unknown, Userdata, Thread }
+pub uninterp spec fn arr_repr(p: GcPtr<ValueArray>) -> Repr;
+// "every element of this array may legitimately be held by the receiving heap" (each element is a scalar, a new
+// object of the receiving heap, or a pointer the receiver may share)
+pub uninterp spec fn elems_ok(p: GcPtr<ValueArray>) -> bool;
+// `new` has just been allocated as a bit copy of `old`: same representation, same element words
+pub uninterp spec fn shallow_copy_of(new: GcPtr<ValueArray>, old: GcPtr<ValueArray>) -> bool;
+
+// Arrays whose elements are unboxed numbers hold no pointers at all.
+#[verifier::external_body]
+pub proof fn axiom_scalar_arrays_hold_no_pointers(p: GcPtr<ValueArray>)
+    requires arr_repr(p) is Byte || arr_repr(p) is Int || arr_repr(p) is Float
+    ensures elems_ok(p)
+{}
+
+impl GcPtr<ValueArray> {
+    #[verifier::external_body]
+    pub fn repr(&self) -> (r: Repr) ensures r == arr_repr(*self) { unimplemented!() }
+}
+
+impl<'gc> Cloner<'gc> {
+    // `self.deep_clone_ptr(&array, |gc, array| { let ptr = gc.alloc(array)?; Ok((Array(ptr), ptr)) })`:
+    // visited hit  => Ok(Ok(the copy made earlier in this clone));
+    // visited miss => Ok(Err(new)) where new is a fresh bit copy of the array (elements not yet cloned).  ASSUMED.
+    #[verifier::external_body]
+    pub fn deep_clone_ptr_array(&mut self, array: &GcPtr<ValueArray>) -> (r: Result<Result<ValueRepr, GcPtr<ValueArray>>, Error>)
+        ensures
+            final(self).receiver_generation == old(self).receiver_generation,
+            // (the visited map only ever stores ValueRepr::Array under an array's key: the closure passed to deep_clone_ptr above)
+            r is Ok && r->Ok_0 is Ok ==> r->Ok_0->Ok_0 is Array && fresh(r->Ok_0->Ok_0->Array_0) && elems_ok(r->Ok_0->Ok_0->Array_0),
+            r is Ok && r->Ok_0 is Err ==> fresh(r->Ok_0->Err_0) && shallow_copy_of(r->Ok_0->Err_0, *array) && arr_repr(r->Ok_0->Err_0) == arr_repr(*array),
+    { unimplemented!() }
+
+    // `deep_clone_elems(&mut new_array, |e| self.<helper>(e))`: replaces every element by the helper's result
+    // (ASSUMED: on success every element is then a new object of the receiving heap / a shareable pointer)
+    #[verifier::external_body]
+    pub fn deep_clone_elems_with_deep_clone_array(&mut self, new_array: &mut GcPtr<ValueArray>) -> (r: Result<(), Error>)
+        ensures r is Ok ==> elems_ok(*final(new_array)), fresh(*final(new_array)) == fresh(*old(new_array)),
+                final(self).receiver_generation == old(self).receiver_generation
+    { unimplemented!() }
+    #[verifier::external_body]
+    pub fn deep_clone_elems_with_deep_clone_inner(&mut self, new_array: &mut GcPtr<ValueArray>) -> (r: Result<(), Error>)
+        ensures r is Ok ==> elems_ok(*final(new_array)), fresh(*final(new_array)) == fresh(*old(new_array)),
+                final(self).receiver_generation == old(self).receiver_generation
+    { unimplemented!() }
+    #[verifier::external_body]
+    pub fn deep_clone_elems_with_deep_clone_userdata(&mut self, new_array: &mut GcPtr<ValueArray>) -> (r: Result<(), Error>)
+        ensures r is Ok ==> elems_ok(*final(new_array)), fresh(*final(new_array)) == fresh(*old(new_array)),
+                final(self).receiver_generation == old(self).receiver_generation
+    { unimplemented!() }
+    #[verifier::external_body]
+    pub fn deep_clone_elems_with_deep_clone_gc_str(&mut self, new_array: &mut GcPtr<ValueArray>) -> (r: Result<(), Error>)
+        ensures r is Ok ==> elems_ok(*final(new_array)), fresh(*final(new_array)) == fresh(*old(new_array)),
+                final(self).receiver_generation == old(self).receiver_generation
+    { unimplemented!() }
+}
